@@ -478,6 +478,11 @@ class Interp:
     def assign(self, t, v, st, stmt, op):
         if isinstance(t, ast.Name):
             v2 = self._ctrl(v, st)
+            if self.domains:
+                if v2 is v:
+                    v2 = v.with_()
+                for d in self.domains:
+                    d.on_assign(self, t.id, v2, stmt, st)
             self.emit("assign", stmt, st, name=t.id, val=v2, op=op, rhs=v, prev=st.env.get(t.id))
             st.env[t.id] = v2
             self.assign_ctx[(len(self.frames), t.id)] = (tuple(self.loops), getattr(stmt, "lineno", 0), self._elem_prov(v2))
